@@ -75,11 +75,13 @@ typedef char cregex_char_class[(UCHAR_MAX + CHAR_BIT - 1) / CHAR_BIT];
 static inline int cregex_char_class_contains(
   const cregex_char_class klass,
   int                     ch) {
+  ch = (unsigned char) ch; /* plain char may be signed: bytes >= 0x80 arrive negative */
   return klass[ch / CHAR_BIT] & (1 << ch % CHAR_BIT);
 }
 
 static inline int cregex_char_class_add(cregex_char_class klass, int ch) {
-  klass[ch / CHAR_BIT] |= 1 << (ch % CHAR_BIT);
+  const int uch = (unsigned char) ch; /* plain char may be signed: bytes >= 0x80 arrive negative */
+  klass[uch / CHAR_BIT] |= 1 << (uch % CHAR_BIT);
   return ch;
 }
 
